@@ -5,6 +5,7 @@ from vlib.traversal import Traversal, snake
 
 SPAN = "ironplc_dsl::core::SourceSpan"
 TOKEN = "ironplc_parser::token::Token"
+TOKTYPE = "ironplc_parser::token::TokenType"
 
 
 def span_fields(ctx):
@@ -372,10 +373,13 @@ def rule_fold(ctx, rep):
 def rule_copy(ctx, rep):
     r = rep.rule("R-C05-copy", "identifier() builds the Id from text and span of the same token; the lexer builds each Token from span()/slice() of the "
                                "same lexer state and from the running line/col counters", floor=2)
-    for b in ctx.prog.get("ironplc_parser::parser::plc_parser::__parse_identifier::{closure#0}") + ctx.prog.get("ironplc_parser::parser::plc_parser::__parse_identifier"):
-        fr = [c for c in b.calls() if c.callee == "ironplc_dsl::core::Id::from"]
-        wp = [c for c in b.calls() if c.callee == "ironplc_dsl::core::Id::with_position"]
-        if not fr or not wp:
+    FROM = ("ironplc_dsl::core::Id::from", "ironplc_dsl::common::Type::from")
+    WITH = ("ironplc_dsl::core::Id::with_position", "ironplc_dsl::common::Type::with_position")
+    # every name the grammar builds from a token's text (today: rule identifier), in any action closure of any rule
+    for b in sorted((x for x in ctx.prog.bodies.values() if x.f["crate"] == "ironplc_parser" and "::plc_parser::" in norm(x.id)), key=lambda x: x.id):
+        fr = [c for c in b.calls() if c.callee in FROM]
+        wp = [c for c in b.calls() if c.callee in WITH]
+        if not fr:
             continue
 
         def tok_root(op, want):
@@ -393,13 +397,19 @@ def rule_copy(ctx, rep):
                 else:
                     return None
             return None
-        t1 = tok_root(fr[0].args[0], "text")
-        t2 = tok_root(wp[0].args[1], "span")
-        where = "parser/src/parser.rs:%d" % fr[0].loc[0]
-        if t1 and t2 and t1[2] == "text" and t2[2] == "span" and t1[:2] == t2[:2]:
-            r.ok("identifier|Id::from(i.text).with_position(i.span) on one token", where)
-        else:
-            r.finding("identifier|text/span", where, "the Id's text and span do not come from `text`/`span` of the same token (%s / %s)" % (t1, t2))
+        rname = norm(b.id).split("::__parse_")[-1]
+        for k, f0 in enumerate(fr):
+            t1 = tok_root(f0.args[0], "text")
+            if t1 is None:
+                continue            # not built from a token (placeholder constants are R-C01-ident's business)
+            t2 = tok_root(wp[0].args[1], "span") if wp else None
+            where = "parser/src/parser.rs:%d" % f0.loc[0]
+            inst = "identifier" if rname == "identifier::{closure#0}" else rname
+            if t1 and t2 and t1[2] == "text" and t2[2] == "span" and t1[:2] == t2[:2]:
+                r.ok("%s|Id::from(i.text).with_position(i.span) on one token" % inst, where)
+            else:
+                r.finding("%s|text/span" % inst, where, "a name is built from a token's text but does not get that token's span (text from %s, span from %s): "
+                          "diagnostics about it point at offset 0" % (t1, t2))
     lb = ctx.prog.get("ironplc_parser::lexer::tokenize")
     if lb:
         b = lb[0]
@@ -588,6 +598,40 @@ def rule_noop(ctx, rep):
             r.ok(inst, loc_str(b.f, s[3]))
 
 
+def rule_tile(ctx, rep, rid="R-C05-tile"):
+    """Tokens can only tile the source, and the running line/column can only be right, if the lexer hands out a token for every
+    character it consumes: `tokenize` advances its counters per yielded token.  logos consumes text silently in exactly two ways:
+    an item-level `#[logos(skip <regex>)]` and a variant callback that returns `logos::Skip` / `logos::skip`."""
+    r = rep.rule(rid, "the lexer consumes nothing silently: TokenType has no #[logos(skip ..)] attribute and no token callback is logos::skip / returns "
+                      "logos::Skip (every consumed character belongs to a yielded token, which is what advances line/col)", floor=100,
+                 floor_what="lexer attributes scanned")
+    a = ctx.facts.astattrs.get(TOKTYPE)
+    if not a:
+        rep.error(rid, "no attribute facts for TokenType")
+        return
+    n = 0
+    bad = 0
+    for at in a.get("attrs", []):
+        n += 1
+        if re.search(r"#\[\s*logos\s*\(.*\bskip\b", at):
+            bad += 1
+            r.finding("TokenType|#[logos(skip)]", "parser/src/token.rs", "text matching %s is consumed without a token: the tokens no longer tile the source and every later "
+                      "token of the line has a column that is too small" % at[:80])
+    for vn, v in sorted(a["variants"].items()):
+        for at in v.get("attrs", []):
+            n += 1
+            if re.search(r"logos::skip|logos::Skip|,\s*skip\b|Skip\b", at):
+                bad += 1
+                r.finding("TokenType::%s|skip-callback" % vn, "parser/src/token.rs", "token %s is skipped by its callback (%s)" % (vn, at[:80]))
+    for b in ctx.prog.bodies.values():
+        if b.f["crate"] == "ironplc_parser" and (b.local_ty(0) or "").endswith("logos::Skip"):
+            bad += 1
+            r.finding("%s|returns-Skip" % norm(b.id), "%s:%d" % (b.f["file"], b.f["line"]), "a lexer callback returns logos::Skip")
+    if not bad:
+        r.ok("TokenType|no skip", "parser/src/token.rs", "%d attributes" % n)
+    r.count_override = n
+
+
 def rule_linecol(ctx, rep, rid="R-C05-linecol"):
     """A token's (line, col) pair is only right if a new line restarts the column.  In lexer::tokenize: whenever `line` is advanced, `col`
     is re-based (assigned a value that does not depend on its old value) in the same iteration - before the line write (dominating it,
@@ -768,5 +812,6 @@ def run(ctx, rep):
     rule_units(ctx, rep)
     rule_pair(ctx, rep)
     rule_linecol(ctx, rep)
+    rule_tile(ctx, rep)
     from rules import c05_blank
     c05_blank.run(ctx, rep)
